@@ -215,7 +215,11 @@ func (r *R) verify(cs *Case) {
 		if cs.Hash != 4 && rwhy != "hash id names no hash function" && valid {
 			rwhy = "hash id is not sha256 and the signature is not valid under the hash it names"
 		}
-		r.viol(fn+": accepts, but the standard library does not verify this signature over the RFC input: "+rwhy+" ["+tag+"]", cs,
+		sfx := " [" + tag + "]"
+		if valid && rwhy != "the signature does not verify" {
+			sfx = "" // the algorithm ids decide, whatever the structure signed
+		}
+		r.viol(fn+": accepts, but the standard library does not verify this signature over the RFC input: "+rwhy+sfx, cs,
 			fmt.Sprintf("hash=%d sigalg=%d key=%s", cs.Hash, cs.SigAlg, cs.Key))
 	case !accepted && mustAccept:
 		r.viol(fn+": rejects ("+algNeutral(errClass(err))+"), but the standard library verifies this SHA-256 signature over the RFC input ["+tag+"]", cs, err.Error())
